@@ -241,6 +241,60 @@ def drive(rec, ms, quick):
     rec.data["events"] = events
 
 
+def drive_signals(rec, quick):
+    """The transforms while signals are delivered to the computing thread (a 4 kHz interval timer with an empty handler): a handler runs on
+    the thread's own stack, below the 128 bytes the ABI reserves under the stack pointer - a kernel that parks live values further down
+    loses them.  Every call must return the bytes of the first call."""
+    import signal
+    import time
+    rng = random.Random(rec.seed + 321)
+    L = Lib.get()
+    tables = kernels.Tables(L)
+    ok = 0
+    got_signals = [0]
+
+    def handler(*a):
+        got_signals[0] += 1
+    old = signal.signal(signal.SIGALRM, handler)
+    try:
+        for (tr, layout, name) in (("fft", "reim", "reim_fft"), ("ifft", "reim", "reim_ifft"), ("fft", "cplx", "cplx_fft"), ("ifft", "cplx", "cplx_ifft")):
+            for m in ((16, 4096) if quick else (16, 64, 1024, 4096, 65536)):
+                for mask in (MASK_NONE, MASK_GENERIC):
+                    t = tables.get("new_%s_%s_precomp" % (layout, tr), m, mask, ("w", 0))
+                    src = np.array([rng.uniform(-1, 1) for _ in range(2 * m)])
+                    d = Buf(16 * m, fill=0)
+                    f = L.fn(name, "v pp")
+                    label = "%s m=%d mask=%d under a stream of signals" % (name, m, mask)
+                    if not rec.progress(label):
+                        continue
+                    d.f64[:] = src
+                    f(t, d.addr)
+                    first = d.u8.copy()                       # (no timer yet)
+                    signal.setitimer(signal.ITIMER_REAL, 0.00025, 0.00025)
+                    bad = 0
+                    t_end = time.time() + (0.25 if quick else 1.0)
+                    reps = 0
+                    while time.time() < t_end:
+                        for _ in range(50):
+                            d.f64[:] = src
+                            f(t, d.addr)
+                            reps += 1
+                            if not np.array_equal(d.u8, first):
+                                bad += 1
+                    signal.setitimer(signal.ITIMER_REAL, 0, 0)
+                    rec.case(("signals", name, m, mask))
+                    if bad or not d.canaries_ok():
+                        rec.violation(label + ": %d of %d calls returned other bytes than the first call" % (bad, reps), {"fn": name, "m": m})
+                    else:
+                        ok += 1
+    finally:
+        signal.setitimer(signal.ITIMER_REAL, 0, 0)
+        signal.signal(signal.SIGALRM, old)
+    rec.data["ok"] = ok
+    rec.data["signals"] = got_signals[0]
+    rec.data["events"] = []
+
+
 def drive_simple_sequence(rec, quick):
     """the *_simple transforms over every dimension inside ONE process, up and then down: the table a call uses may not depend on the
     dimensions used before (each result must be the bytes the table-based entry point gives)"""
@@ -364,9 +418,13 @@ def run(chk, replay=None):
     ms = [1 << s for s in range(0, 19)]      # every dimension up to 2^18 in both tiers (the tiers differ in the number of probes per dimension)
     jobs = [("FFT probes m=%s" % ms[i::7], drive, (ms[i::7], quick)) for i in range(7)] + [("table binding", drive_tables, (tabs,)),
                                                                                               ("index helpers", drive_helpers, (quick,)),
-                                                                                              ("*_simple over all dimensions in one process", drive_simple_sequence, (quick,))]
+                                                                                              ("*_simple over all dimensions in one process", drive_simple_sequence, (quick,)),
+                                                                                              ("transforms under a stream of signals", drive_signals, (quick,))]
     res = isolated_many(chk, jobs, timeout=3000, nproc=10)
     events = [ev for d in res[:7] if d for ev in d["events"]] + (res[8]["events"] if res[8] else []) + (res[9]["events"] if res[9] else [])
+    if res[10]:
+        chk.traces += res[10]["ok"]
+        chk.cov["signals_delivered_during_transforms"] = res[10]["signals"]
     td = res[7] or {}
     chk.cov["table_entries_checked"] = td.get("checked", 0)
     if td.get("drift"):
